@@ -7,6 +7,8 @@ env = dict(os.environ, GOFLAGS="-mod=mod", GOPROXY="off", GOSUMDB="off")
 def sh(cmd, cwd="/tmp/mut"):
     return subprocess.run(cmd, cwd=cwd, env=env, shell=True, stdout=subprocess.PIPE, stderr=subprocess.STDOUT, text=True)
 head = subprocess.check_output("git -C /repo rev-parse HEAD", shell=True, text=True).strip()
+if not os.path.isdir("/tmp/mut"):
+    subprocess.run("git -C /repo worktree add -q --detach /tmp/mut HEAD", shell=True)
 sh("git checkout -q -- . && git clean -fdq && git checkout -q --detach %s" % head)
 shutil.copy("/repo/go.sum", "/tmp/mut/go.sum")
 diff, demo = "%s/m%s.diff" % (src, n), "%s/m%s_demo_test.go" % (src, n)
